@@ -383,3 +383,21 @@ mutant("C18-M12", "C18", "R18b", "program book reader raises KeyError-converting
 mutant("C18-M13", "C18", "R18a", "attribute of a dict record read in a message", FW, "ProjectFramework._validate_parameters", "raise InvalidFramework('Parameter \"%s\" is marked \"is derivative\" but it does not have a parameter function' % (par_name))", "raise InvalidFramework('Parameter \"%s\" is marked \"is derivative\" but it does not have a parameter function' % (par.code_name))")
 twin("C18-T1", "C18", "raise inside a helper called under a converting handler", DA, "ProjectData._read_pops", "        self.pops = sc.odict()\n", "        self.pops = sc.odict()\n        if sheet is None:\n            raise Exception(\"no sheet\")\n")
 twin("C18-T2", "C18", "%-format -> f-string", FW, "ProjectFramework._validate_names", "raise InvalidFramework('Code name \"%s\" is not valid: it cannot contain any of these reserved symbols %s' % (name, FS.RESERVED_SYMBOLS))", "raise InvalidFramework(f'Code name \"{name}\" is not valid: it cannot contain any of these reserved symbols {FS.RESERVED_SYMBOLS}')")
+
+# =============================================================================================== C19
+FP = "atomica/function_parser.py"
+mutant("C19-M3", "C19", "R19b", "'__' assert deleted", FP, "parse_function", "    assert \"__\" not in fcn_str, \"Cannot use double underscores in functions\"\n", "")
+mutant("C19-M4", "C19", "R19b", "compile hoisted above the walk", edits=[
+    dict(file=FP, func="parse_function", old="    compiled_code = compile(fcn_ast, filename=\"<ast>\", mode=\"eval\")\n", new=""),
+    dict(file=FP, func="parse_function", old="    dep_list = []\n", new="    compiled_code = compile(fcn_ast, filename=\"<ast>\", mode=\"eval\")\n    dep_list = []\n"),
+])
+mutant("C19-M5", "C19", "R19e", "evaluate_plot_string allows ast.Call", U, "evaluate_plot_string", "isinstance(node, ast.Dict) or isinstance(node, ast.Str)", "isinstance(node, ast.Dict) or isinstance(node, ast.Call) or isinstance(node, ast.Str)")
+mutant("C19-M7", "C19", "R19c", "division transformer skips the right operand of non-divisions", FP, "_DivTransformer.visit_BinOp", "        lhs = self.visit(node.left)\n        rhs = self.visit(node.right)\n\n        if not isinstance(node.op, ast.Div):\n            node.left = lhs\n            node.right = rhs\n            return node\n", "        if not isinstance(node.op, ast.Div):\n            node.left = self.visit(node.left)\n            return node\n        lhs = self.visit(node.left)\n        rhs = self.visit(node.right)\n")
+mutant("C19-M8", "C19", "R19d", "eval with the module globals", FP, "parse_function", "return eval(compiled_code, deps, supported_functions)", "return eval(compiled_code, globals(), {**supported_functions, **deps})")
+mutant("C19-M9", "C19", "R19f", "whitelisted-looking names dropped from the dependency list", FP, "parse_function", "        if isinstance(node, ast.Name) and node.id not in supported_functions:\n            dep_list.append(node.id)", "        if isinstance(node, ast.Name) and node.id not in supported_functions and not node.id.startswith(\"_\"):\n            dep_list.append(node.id)")
+mutant("C19-M10", "C19", "R19c", "transformer applied after validation", edits=[
+    dict(file=FP, func="parse_function", old="    fcn_ast = _DivTransformer().visit(fcn_ast)\n    fcn_ast = ast.fix_missing_locations(fcn_ast)\n", new=""),
+    dict(file=FP, func="parse_function", old="    compiled_code = compile(", new="    fcn_ast = ast.fix_missing_locations(_DivTransformer().visit(fcn_ast))\n    compiled_code = compile("),
+])
+mutant("C19-M11", "C19", "R19e", "plot strings: eval before the walk", U, "evaluate_plot_string", "        fcn_ast = ast.parse(plot_string, mode=\"eval\")\n", "        fcn_ast = ast.parse(plot_string, mode=\"eval\")\n        if len(plot_string) < 10:\n            return eval(compile(fcn_ast, filename=\"<ast>\", mode=\"eval\"))\n")
+twin("C19-T2", "C19", "assert -> if ... raise for the '__' guard", FP, "parse_function", "    assert \"__\" not in fcn_str, \"Cannot use double underscores in functions\"\n", "    if \"__\" in fcn_str:\n        raise ValueError(\"Cannot use double underscores in functions\")\n")
